@@ -50,9 +50,9 @@ CHECKS = {
         ref='§5 C03'),
     'C04': dict(
         engine='list',
-        technique='Lean 4 proof of supporting theorems (repeating count = forward pass of range-pair for histories starting at the maximum; equal totals on odd reversal counts) + Lean predicates for all six clauses evaluated on the implementation over random and all small histories (a test)',
-        text='PARTIAL. The six clauses (agreement on closed histories, four-point minus the closing cycle, cut independence, residue identity, no-tie equality, containment) are stated in full as Lean propositions but NOT proved; each is decided on the implementation by an executable Lean predicate over random tie-rich histories, every cut of each period, and all histories of length <= 6 over 4 values (quick) / <= 8 over 5 (thorough). Proved for all histories: a history starting at its maximum is counted by the repeating-history method exactly as by the forward pass of range-pair counting (so range-pair = repeating count ++ backward-pass cycles), and with an odd number of reversals rainflow and range-pair count the same total.',
-        note='Trusted: Lean kernel + standard axioms for the supporting theorems; the six clause statements are tested, not proved; models tied to /repo/src by the exact correspondence of check C02.',
+        technique='Lean 4 proof (simulation between the rainflow and range-pair stack machines; four-point extraction as a confluent rewriting system; refinement / rotation lemmas for the repeating count) + Lean predicates for all six clauses evaluated on the implementation over random and all small histories',
+        text='All six clauses are theorems about the code-shaped models, for every history, ties included (Proofs/C04Full.lean): on a non-constant history closed at a global extreme rainflow, range-pair and repeating-history tables coincide and four-point gives that table minus the single max-min closing cycle; the repeating-history table does not depend on where the closed period is cut; for any history the four-point cycles plus half cycles of its leftover reproduce the rainflow table, four-point equals the rainflow whole cycles when no compared ranges tie, and range-pair contains the rainflow whole cycles. The same clauses are evaluated by executable Lean predicates on the implementation output over random tie-rich histories, every cut of each period, and all histories of length <= 6 over 4 values (quick) / <= 8 over 5 (thorough).',
+        note='Trusted: Lean kernel + standard axioms; models tied to /repo/src by the exact correspondence of check C02; the leftover of clause (d) is taken from the model after checking its cycle list against the implementation.',
         ref='§5 C04'),
     'C09': dict(
         engine='formula',
@@ -114,6 +114,12 @@ CHECKS = {
         text='Theorems: a fixed point u* of the HL-RF update with non-zero gradient satisfies G(u*) = 0, u* = -beta alpha and |beta| = |u*|; for an affine limit state one update from ANY start lands on the design point with beta = b/|a|, which is a fixed point on the limit state; the update is invariant under g -> k g (k > 0); for g = c.x + d with jointly normal x (any correlation rho = L L^T) the U-space limit state is affine with squared gradient norm c^T D rho D c, hence beta = E[g]/sd[g]; for independent variables this is the mean-value FOSM index; for one variable with any marginal pf = Phi(-beta) = F(c). The implementation is tied by tolerance: beta vs the exact value (hlrfFORM 1e-5 with analytic and numerical gradients, coptFORM 2e-4, mvalFOSM 1e-9), g(x*) = 0, x* = T(u*), |beta| = |u*|, pf = Phi(-beta), invariance under 7 g, negative beta included.',
         note='Trusted: Lean kernel + standard axioms + Mathlib; convergence of the iteration, SLSQP in coptFORM and the numerical gradient are modelled, not verified; tie by tolerance.',
         ref='§5 C10'),
+    'C12': dict(
+        engine='formula',
+        technique='Lean 4 proof over the reals about a code-shaped generic-scalar model of the three closing formulas (zero curvature, permutation invariance, product formulas, sign clause) and the linear algebra of the curvature extraction (leading block of the conjugated Hessian is orthogonally similar to diag(k)) + Float evaluation of the model and tolerance checks of the implementation on rotated paraboloids and flat limit states',
+        text='Theorems: with all curvatures zero Breitung, Tvedt and Hohenbichler-Rackwitz equal Phi(-beta); Breitung = Phi(-beta) prod (1 + beta k_i)^-1/2 and H-R with phi(beta)/Phi(beta) in place of beta; all three are invariant under permutation of the curvatures; non-negative curvatures lower and curvatures in (-1/c, 0] raise the estimate relative to FORM; for any rotation R the leading block of the conjugated paraboloid Hessian equals R diag(k) R^T and has characteristic polynomial prod (X - k_i), so the extracted curvatures do not depend on the rotation or ordering of the axes. The closing formulas are evaluated at Float and compared with the implementation (curvature extraction replaced as in the repository tests); the full pipeline is checked on rotated paraboloids (also through correlated normal marginals) and on flat limit states (correlated normals, lognormal product / ratio).',
+        note='Trusted: Lean kernel + standard axioms + Mathlib; Phi / phi values supplied by scipy to the Float model; coptFORM (SLSQP), numerical Hessian, np.linalg.eig and Gram-Schmidt conditioning are modelled, not verified; tolerance 2e-3 on curvature-dependent results.',
+        ref='§5 C12'),
 }
 
 NOT_YET = {}
